@@ -116,5 +116,67 @@ theorem c01_radius_pattern_in_range (nx ny j q : ℕ) (hnx : 1 ≤ nx) (hj : j <
     simp only [Nat.add_sub_cancel]
     nlinarith
 
+
+/-! ### ComputeNodes: the declared constant partials are the Jacobian of the model, for every mesh size -/
+
+/-- C-order flattening of an `[nx, ny, 3]` mesh and of an `[ny, 3]` array -/
+def meshFlat (ny : ℕ) (m : Mesh ℝ) (idx : ℕ) : ℝ := (m (idx / 3 / ny) (idx / 3 % ny)).get (idx % 3)
+def ptsFlat (p : Pts ℝ) (r : ℕ) : ℝ := (p (r / 3)).get (r % 3)
+
+theorem get_add_smul (a b : ℝ) (u v : V3 ℝ) (c : ℕ) : (V3.smul a u + V3.smul b v).get c = a * u.get c + b * v.get c := by
+  show (V3.add (V3.smul a u) (V3.smul b v)).get c = _
+  unfold V3.get V3.add V3.smul
+  split_ifs <;> rfl
+
+/-- **the declared `rows/cols/val` of `ComputeNodes` expand to its output** (hence are its Jacobian, the output being linear in the
+mesh): for every `nx`, `ny`, spar location `w` and flattened output index `r` -/
+theorem c01_compute_nodes_pattern (nx ny : ℕ) (w : ℝ) (m : Mesh ℝ) (r : ℕ) (hr : r < 3 * ny) :
+    ptsFlat (computeNodes nx w m) r =
+      ∑ k ∈ range (2 * (3 * ny)), if nodesRow ny k = r then nodesVal ny w k * meshFlat ny m (nodesCol nx ny k) else 0 := by
+  have hny : 0 < ny := by omega
+  have hq : r / 3 < ny := by omega
+  rw [two_mul, Finset.sum_range_add]
+  have h1 : ∀ k ∈ range (3 * ny), (if nodesRow ny k = r then nodesVal ny w k * meshFlat ny m (nodesCol nx ny k) else 0)
+      = if k = r then (1 - w) * meshFlat ny m k else 0 := by
+    intro k hk
+    have hk' : k < 3 * ny := Finset.mem_range.mp hk
+    simp only [nodesRow, nodesVal, nodesCol, Nat.mod_eq_of_lt hk', hk', if_true]
+  have h2 : ∀ k ∈ range (3 * ny), (if nodesRow ny (3 * ny + k) = r then nodesVal ny w (3 * ny + k) * meshFlat ny m (nodesCol nx ny (3 * ny + k)) else 0)
+      = if k = r then w * meshFlat ny m (k + (nx - 1) * (3 * ny)) else 0 := by
+    intro k hk
+    have hk' : k < 3 * ny := Finset.mem_range.mp hk
+    have hn : ¬ (3 * ny + k < 3 * ny) := by omega
+    have hm : (3 * ny + k) % (3 * ny) = k := by rw [Nat.add_mod_left, Nat.mod_eq_of_lt hk']
+    have hs : 3 * ny + k - 3 * ny = k := by omega
+    simp only [nodesRow, nodesVal, nodesCol, hn, hm, hs, if_false]
+  rw [Finset.sum_congr rfl h1, Finset.sum_congr rfl h2, Finset.sum_ite_eq' (range (3 * ny)) r, Finset.sum_ite_eq' (range (3 * ny)) r]
+  simp only [Finset.mem_range.mpr hr, if_true]
+  -- the two flattened mesh entries are the leading- and trailing-edge nodes of station r / 3
+  have e0 : meshFlat ny m r = (m 0 (r / 3)).get (r % 3) := by
+    unfold meshFlat
+    rw [Nat.div_eq_of_lt hq, Nat.mod_eq_of_lt hq]
+  have e1 : meshFlat ny m (r + (nx - 1) * (3 * ny)) = (m (nx - 1) (r / 3)).get (r % 3) := by
+    unfold meshFlat
+    have a1 : (r + (nx - 1) * (3 * ny)) / 3 = r / 3 + (nx - 1) * ny := by
+      have : (nx - 1) * (3 * ny) = 3 * ((nx - 1) * ny) := by ring
+      rw [this]; omega
+    have a2 : (r + (nx - 1) * (3 * ny)) % 3 = r % 3 := by
+      have : (nx - 1) * (3 * ny) = 3 * ((nx - 1) * ny) := by ring
+      rw [this]; omega
+    rw [a1, a2, Nat.add_mul_div_right _ _ hny, Nat.add_mul_mod_self_right, Nat.div_eq_of_lt hq, Nat.mod_eq_of_lt hq, Nat.zero_add]
+  rw [e0, e1]
+  unfold ptsFlat computeNodes
+  exact get_add_smul _ _ _ _ _
+
+/-- every declared entry lies inside the `[3 ny, 3 nx ny]` Jacobian -/
+theorem c01_compute_nodes_pattern_in_range (nx ny k : ℕ) (hx : 1 ≤ nx) (hk : k < 2 * (3 * ny)) :
+    nodesRow ny k < 3 * ny ∧ nodesCol nx ny k < nx * (3 * ny) := by
+  have hny : 0 < 3 * ny := by omega
+  refine ⟨Nat.mod_lt _ hny, ?_⟩
+  unfold nodesCol
+  obtain ⟨p, rfl⟩ : ∃ p, nx = p + 1 := ⟨nx - 1, by omega⟩
+  simp only [Nat.add_sub_cancel, Nat.add_mul, Nat.one_mul]
+  split <;> omega
+
 end C01Patterns
 end OAS
